@@ -644,8 +644,8 @@ func binCaseRun(r *mon.Run, bin string, fx fixtures, i int, c binCase) {
 			break
 		}
 		outs = append(outs, o)
+		r.Eval(1) // every start of the binary is one evaluated case (same granularity as Distinct)
 	}
-	r.Eval(1)
 	if len(outs) >= 2 {
 		r.Count("restart_sequences", 1)
 		for k := 1; k < len(outs); k++ {
@@ -990,8 +990,8 @@ func inCaseRun(r *mon.Run, fx fixtures, i int, c inCase) {
 			return
 		}
 		pins, advs = append(pins, pin), append(advs, adv)
+		r.Eval(1) // every start is one evaluated case
 	}
-	r.Eval(1)
 	if cachedPin != "" && len(pins) > 0 && (pins[0] != cachedPin || advs[0] != cachedPin) {
 		r.Violate(engIn, i, "advertised-fp-differs-from-served:dated-cache", fmt.Sprintf("the certificate cache holds the key with pin %s (certificate %s) but the start serves %s and advertises %s", cachedPin, c.Cache, pins[0], advs[0]), map[string]any{"config": c})
 	}
